@@ -19,8 +19,11 @@ type Verdict struct {
 // scriptedChild answers each EVENT with one OK taken from its verdict list (indexed by event id
 // byte) and each COUNT with one COUNT reply.
 type scriptedChild struct {
+	h       *vsched.H
 	verdict Verdict
 	count   uint64
+	Replied map[string][]int64 // event id -> logical times at which this child's replies were taken
+	stamp   bool               // reply times matter only when several children reject (who was first?)
 }
 
 func (c *scriptedChild) ServeNostr(ctx context.Context, send chan<- mocrelay.ServerMsg, recv <-chan mocrelay.ClientMsg) error {
@@ -45,6 +48,9 @@ func (c *scriptedChild) ServeNostr(ctx context.Context, send chan<- mocrelay.Ser
 			case <-ctx.Done():
 				return ctx.Err()
 			case send <- reply:
+				if ok, is := reply.(*mocrelay.ServerOKMsg); is && c.stamp {
+					c.Replied[ok.EventID] = append(c.Replied[ok.EventID], c.h.Stamp())
+				}
 			}
 		}
 	}
@@ -71,6 +77,7 @@ const C09Scripts = 7
 func MergeOKCount(h *vsched.H) {
 	n := h.Param("n", 2)
 	var hs []mocrelay.Handler
+	var kids []*scriptedChild
 	var verdicts []Verdict
 	var counts []uint64
 	for i := 0; i < n; i++ {
@@ -78,7 +85,18 @@ func MergeOKCount(h *vsched.H) {
 		k := c09Counts[h.Param(fmt.Sprintf("k%d", i), 0)]
 		verdicts = append(verdicts, v)
 		counts = append(counts, k)
-		hs = append(hs, &scriptedChild{verdict: v, count: k})
+		kid := &scriptedChild{h: h, verdict: v, count: k, Replied: map[string][]int64{}}
+		kids = append(kids, kid)
+		hs = append(hs, kid)
+	}
+	rejecting := 0
+	for _, v := range verdicts {
+		if !v.Accept {
+			rejecting++
+		}
+	}
+	for i, k := range kids {
+		k.stamp = rejecting >= 2 && !verdicts[i].Accept
 	}
 	merged := mocrelay.NewMergeHandler(hs...)
 	c := NewConn(h, "c", context.Background(), merged)
@@ -163,14 +181,31 @@ func MergeOKCount(h *vsched.H) {
 				if !ok {
 					h.Failf("C09/OK reason: rejection text does not begin with a rejecting child's reason", "verdicts %+v; got %q", verdicts, m.Message())
 				}
-				// the machine-readable prefix of the leading reason must survive
-				lead := ""
-				for _, r := range reasons {
-					if strings.HasPrefix(m.Message(), r) && len(r) > len(lead) {
-						lead = r
+				// "the first rejecting child": the statement does not say whether first by position or
+				// first to reply, so both are accepted — but nothing else. Decidable when the id is in
+				// flight once (each child has replied exactly once for it).
+				if wantOK[m.EventID] == 1 {
+					low, early := -1, -1
+					var earlyAt int64
+					for i, v := range verdicts {
+						if v.Accept || len(kids[i].Replied[m.EventID]) != 1 {
+							continue
+						}
+						if low < 0 {
+							low = i
+						}
+						if at := kids[i].Replied[m.EventID][0]; early < 0 || at < earlyAt {
+							early, earlyAt = i, at
+						}
+					}
+					if low >= 0 && rejecting >= 2 {
+						rl := verdicts[low].Prefix + verdicts[low].Msg
+						re := verdicts[early].Prefix + verdicts[early].Msg
+						if !strings.HasPrefix(m.Message(), rl) && !strings.HasPrefix(m.Message(), re) {
+							h.Failf("C09/OK reason: rejection text begins neither with the reason of the first rejecting child by position nor of the first to reply", "verdicts %+v; first by position: child %d, first to reply: child %d; got %q", verdicts, low, early, m.Message())
+						}
 					}
 				}
-				_ = lead
 			}
 		case *mocrelay.ServerCountMsg:
 			gotCount[m.SubscriptionID]++
